@@ -2,4 +2,6 @@
 #[cfg(stageleft_runtime)]
 hydro_lang::setup!();
 
-pub mod probe;
+pub mod c28;
+pub mod c30;
+pub mod net;
